@@ -40,6 +40,9 @@ pub struct Cfg {
     pub init_cap: i64,
     pub via_new: bool,
     pub seed: u64,
+    /// weights and the capacity are multiplied by this factor on their way into the cache and divided
+    /// by it on their way out: the trace stays in small units while the code works near u32::MAX
+    pub wscale: u64,
 }
 
 impl Cfg {
@@ -64,13 +67,14 @@ impl Cfg {
             init_cap: gi("init_cap", -1),
             via_new: gb("via_new", false),
             seed: gi("seed", 0) as u64,
+            wscale: if gb("weigher", false) { gi("wscale", 1).max(1) as u64 } else { 1 },
         }
     }
     pub fn to_json(&self) -> Value {
         json!({"kind": self.kind, "cap": self.cap, "ttl": self.ttl, "tti": self.tti,
                "weigher": self.weigher, "hasher": self.hasher, "nkeys": self.nkeys,
                "lean": self.lean, "init_cap": self.init_cap, "via_new": self.via_new,
-               "seed": self.seed})
+               "seed": self.seed, "wscale": self.wscale})
     }
     pub fn hash_mode(&self) -> HashMode {
         match self.hasher.as_str() {
@@ -114,7 +118,7 @@ pub fn build_cache(cfg: &Cfg) -> AnyCache {
     if cfg.kind == "unsync" {
         let mut b = mini_moka::unsync::Cache::builder();
         if cfg.cap >= 0 {
-            b = b.max_capacity(cfg.cap as u64);
+            b = b.max_capacity(cfg.cap as u64 * cfg.wscale);
         }
         if cfg.init_cap >= 0 {
             b = b.initial_capacity(cfg.init_cap as usize);
@@ -132,7 +136,7 @@ pub fn build_cache(cfg: &Cfg) -> AnyCache {
     } else {
         let mut b = mini_moka::sync::Cache::builder();
         if cfg.cap >= 0 {
-            b = b.max_capacity(cfg.cap as u64);
+            b = b.max_capacity(cfg.cap as u64 * cfg.wscale);
         }
         if cfg.init_cap >= 0 {
             b = b.initial_capacity(cfg.init_cap as usize);
@@ -251,6 +255,16 @@ impl World {
         let mut amap: HashMap<usize, i64> = HashMap::new();
         let nkeys = self.cfg.nkeys;
         let lean = self.cfg.lean;
+        // weights and totals back in trace units; a value that is not a whole number of units
+        // (arithmetic gone wrong) is reported as -1
+        let sc = self.cfg.wscale;
+        let weigher = self.cfg.weigher;
+        let unscale_w = |w: u32| -> i64 {
+            if !weigher || sc == 1 { w as i64 } else if w as u64 % sc == 0 { (w as u64 / sc) as i64 } else { -1 }
+        };
+        let unscale_ws = |w: u64| -> i64 {
+            if !weigher || sc == 1 { w as i64 } else if w % sc == 0 { (w / sc) as i64 } else { -1 }
+        };
         if self.cache.is_none() {
             return json!({"res": [], "ao": [], "wo": [], "ec": 0, "ws": 0, "va": -1, "rlen": 0, "wlen": 0,
                 "dropped": true,
@@ -262,7 +276,7 @@ impl World {
                 c.verif_visit_entries(|k, v, meta| {
                     res.push((
                         k.id,
-                        json!({"k": k.id, "v": v.id, "w": meta.weight, "tw": if self.cfg.weigher { v.w } else { 1 },
+                        json!({"k": k.id, "v": v.id, "w": unscale_w(meta.weight), "tw": if self.cfg.weigher { unscale_w(v.w) } else { 1 },
                            "la": ticks(base, meta.last_accessed), "lm": ticks(base, meta.last_modified),
                            "adm": meta.admitted, "dirty": false, "i": 0}),
                         meta.ao_node,
@@ -282,7 +296,7 @@ impl World {
                     );
                 }
                 m.insert("ec".into(), json!(c.entry_count()));
-                m.insert("ws".into(), json!(c.weighted_size()));
+                m.insert("ws".into(), json!(unscale_ws(c.weighted_size())));
                 let fq: Vec<u8> = (1..=nkeys).map(|i| c.verif_freq(&K::probe(i))).collect();
                 m.insert("fq".into(), json!(fq));
                 let s = c.verif_sketch_state();
@@ -305,13 +319,13 @@ impl World {
             AnyCache::S(c) => {
                 let mut raw = Vec::new();
                 c.verif_visit_entries(|k, v, meta| {
-                    raw.push((k.id, v.id, if self.cfg.weigher { v.w } else { 1 }, meta));
+                    raw.push((k.id, v.id, if self.cfg.weigher { unscale_w(v.w) } else { 1 }, meta));
                 });
                 for (k, v, tw, meta) in raw {
                     let i = self.info_idx(meta.info_id);
                     res.push((
                         k,
-                        json!({"k": k, "v": v, "w": meta.weight, "tw": tw,
+                        json!({"k": k, "v": v, "w": unscale_w(meta.weight), "tw": tw,
                            "la": ticks(base, meta.last_accessed), "lm": ticks(base, meta.last_modified),
                            "adm": meta.admitted, "dirty": meta.dirty, "i": i}),
                         meta.ao_node,
@@ -333,7 +347,7 @@ impl World {
                     }
                 }
                 m.insert("ec".into(), json!(c.entry_count()));
-                m.insert("ws".into(), json!(c.weighted_size()));
+                m.insert("ws".into(), json!(unscale_ws(c.weighted_size())));
                 let fq: Vec<u8> = (1..=nkeys).map(|i| c.verif_freq(&K::probe(i))).collect();
                 m.insert("fq".into(), json!(fq));
                 let s = c.verif_sketch_state();
@@ -400,8 +414,8 @@ impl World {
                 ev.insert("v".into(), json!(v));
                 ev.insert("w".into(), json!(if self.cfg.weigher { w } else { 1 }));
                 match self.cache.as_mut().unwrap() {
-                    AnyCache::U(c) => c.insert(K::new(k), Val::new(v, w)),
-                    AnyCache::S(c) => c.insert(K::new(k), Val::new(v, w)),
+                    AnyCache::U(c) => c.insert(K::new(k), Val::new(v, (w as u64 * self.cfg.wscale) as u32)),
+                    AnyCache::S(c) => c.insert(K::new(k), Val::new(v, (w as u64 * self.cfg.wscale) as u32)),
                 }
             }
             "Get" => {
